@@ -81,6 +81,12 @@ def body(chk, db, cfgname):
             # under prev == flip(cur): an equality fact between prev and a local copy of cur whose type tag was inverted
             eqs = [x for x in rfa if (x[0] == "==" and nb is not None and (nb[0] in (x[1], x[2]))) or (x[0] == "true" and x[1][0] == "op" and x[1][1] == "==" and nb is not None and nb[0] in x[1][2:])]
             if not eqs:
+                # some other condition relating the two neighbours?  then the form is not analysed; no condition at all is a defect
+                rel_ = [x for x in rfa if nb is not None and key_contains(x, lambda y: y == nb[0]) and key_contains(x, lambda y: y == nb[1]) and x[0] in ("true", "false", "==", "!=")
+                        and not (x[0] in ("<", "<=") )]
+                rel_ = [x for x in rel_ if not (x[0] in ("==", "!=") and set(x[1:]) == {nb[0], nb[1]})]
+                if rel_:
+                    raise AnalysisBroken("the guard of the contraction relates the two neighbours in a form that is not analysed")
                 probs.append("the contraction is not guarded by prev == (cur with creation/annihilation flipped)")
             else:
                 other = None
@@ -163,6 +169,11 @@ def body(chk, db, cfgname):
                         ranges.append((offset(ck_[2]), offset(ck_[3])))
                     elif cn_ == "std::vector::insert" and f.nodes[c].get("obj") is not None and ctx.key(f.nodes[c]["obj"], inline=False)[:2] == rk[2][:2] and len(ck_) == 6:
                         ranges.append((offset(ck_[4]), offset(ck_[5])))
+                dv_ = ctx.decls.get(rk[2][1], {})
+                if dv_.get("init") is not None:
+                    ik_ = ctx.key(dv_["init"], inline=False)
+                    if ik_[0] == "ctor" and ik_[1] == "std::vector" and len(ik_) >= 4 and offset(ik_[2]) is not None and offset(ik_[2])[0] in ("b", "e"):
+                        ranges.insert(0, (offset(ik_[2]), offset(ik_[3])))      # monomial_t new_m(first, last)
                 if not ranges:
                     raise AnalysisBroken("the way the contracted monomial is assembled is not recognised (neither std::copy nor insert of ranges of m)")
                 if any(a1 is None or b1 is None for a1, b1 in ranges):
